@@ -258,6 +258,7 @@ def refreshed_correspondence(ctx):
                 os.utime(path, ns=(10**18, 10**18 + k))
                 record, honest, hist = None, True, []
                 rec_stat = None
+                seen = set()
                 nops = rng.randint(0, 4)
                 rec_at = rng.randint(0, nops)
                 for i in range(nops + 1):
@@ -311,8 +312,15 @@ def refreshed_correspondence(ctx):
                             replace_file(path, variant[0] + 1, "touch")
                     else:
                         variant[0] += 1
-                        replace_file(path, variant[0], op)
+                        replace_file(path, variant[0], op, seen)
                     hist.append(op)
+                    # the recorded inode number given to another file (ext4 does that at once after
+                    # an unlink / rename over): outside the world assumption, judged by observation
+                    if i >= rec_at and rec_stat is not None and op in ("create", "rename", "rename_keep", "chmod_keep",
+                                                                      "same_newino") \
+                            and os.stat(path).st_ino == rec_stat.st_ino:
+                        honest = False
+                        hist[-1] = op + "(recorded-inode-reused)"
                 # the implementation
                 got = record.refreshed(path)
                 try:
